@@ -18,7 +18,7 @@ use std::{
     fmt,
     ptr::NonNull,
     sync::{
-        atomic::{AtomicUsize, Ordering},
+        atomic::{AtomicBool, AtomicUsize, Ordering},
         Arc,
     },
     thread,
@@ -117,6 +117,8 @@ struct Answers {
     next_token: AtomicUsize,
     current_token: Mutex<Option<usize>>,
     condvar: Condvar,
+    /// Set when the hot-reloading thread stops: nobody will answer anymore.
+    stopped: AtomicBool,
 }
 
 impl Answers {
@@ -134,11 +136,32 @@ impl Answers {
 
     fn wait_for_answer(&self, token: usize) {
         let guard = self.current_token.lock();
-        let mut token = self.condvar.wait_while(guard, |t| *t != Some(token));
-        *token = None;
-        // Wake up the hot-reloading thread if it is waiting for the slot to
-        // be free to deliver the next answer.
+        let mut current = self.condvar.wait_while(guard, |t| {
+            *t != Some(token) && !self.stopped.load(Ordering::Acquire)
+        });
+        if *current == Some(token) {
+            *current = None;
+            // Wake up the hot-reloading thread if it is waiting for the slot
+            // to be free to deliver the next answer.
+            self.condvar.notify_all();
+        }
+    }
+
+    /// Releases every thread that waits or will wait for an answer.
+    fn stop(&self) {
+        let _guard = self.current_token.lock();
+        self.stopped.store(true, Ordering::Release);
         self.condvar.notify_all();
+    }
+}
+
+/// Releases the callers of `hot_reload` when the hot-reloading thread stops
+/// while their request is still queued.
+struct StopOnDrop(Arc<Answers>);
+
+impl Drop for StopOnDrop {
+    fn drop(&mut self) {
+        self.0.stop();
     }
 }
 
@@ -228,6 +251,7 @@ fn hot_reloading_thread(
 ) {
     log::info!("Starting hot-reloading");
 
+    let answers = StopOnDrop(answers);
     let mut cache = HotReloadingData::new(source);
 
     let mut select = channel::Select::new();
@@ -247,7 +271,7 @@ fn hot_reloading_thread(
                     unsafe {
                         cache.update_if_local(ptr.as_ref(), reloader.as_ref());
                     }
-                    answers.notify(token);
+                    answers.0.notify(token);
                 }
                 Ok(CacheMessage::Static(asset_cache, reloader)) => {
                     cache.use_static_ref(asset_cache, reloader)
